@@ -172,7 +172,10 @@ CORRS = [
     Corr("xml.ncname", gen_ncname, impl_ncname, describe="Lean isNCName vs lxml's QName validation"),
 ]
 
-from props.c03_oracle import FINDINGS, ORACLES  # noqa: E402,F401
+from props.c03_oracle import FINDINGS, ORACLES as _EVENT_ORACLES  # noqa: E402,F401
+from props import c03_models  # noqa: E402
+
+ORACLES = list(_EVENT_ORACLES) + [c03_models.ORACLE]
 
 TRUSTED = [
     "tokens → text: `Xs.Sax.render` is compared byte for byte with XMLGenerator's output; that the text parses to the infoset `Spec.XmlNs.infoset` assigns to the tokens is checked by sampling against expat and lxml, not proved (no XML parser in Lean)",
